@@ -78,6 +78,12 @@ type Case struct {
 	// whose fragments keep arriving every few milliseconds. (Seeded C10-r9-2 measured the timeout from
 	// the moment any message last began.)
 	Gaps []int `json:"gaps,omitempty"`
+	// Stall[1] > 0: before the frame at receive position Stall[0] (modulo the number of frames) the link
+	// is silent for Stall[1] virtual milliseconds (0.7..3 s). A message that is under reassembly across
+	// such a silence may be given up by a receiver with a reassembly time-out - it need not be
+	// delivered (if it is: once, byte-identical) - but nothing may crash and every other message is
+	// owed as usual. (Seeded C04-r10-2: a late fragment of a timed-out message panicked.)
+	Stall [2]int `json:"stall,omitempty"`
 }
 
 // ---------------------------------------------------------------------------- set-up
@@ -275,7 +281,7 @@ func markStr(a *uint64) string {
 var bubbleT *testing.T
 
 func execC10(c Case) (res evid.Result) {
-	if len(c.Gaps) == 0 || bubbleT == nil {
+	if (len(c.Gaps) == 0 && c.Stall[1] == 0) || bubbleT == nil {
 		return runC10(c)
 	}
 	synctest.Test(bubbleT, func(*testing.T) { res = runC10(c) })
@@ -552,6 +558,7 @@ func runC10(c Case) (res evid.Result) {
 		}
 	}
 	dupAfterCompletion := false
+	stalled := map[int]bool{} // messages under reassembly across a long silence (Stall)
 	if c.Dup > 0 && len(all) > 0 {
 		d := (c.Dup - 1) % len(all)
 		at := c.DupAt % (len(ord) + 1)
@@ -602,7 +609,28 @@ func runC10(c Case) (res evid.Result) {
 		if len(c.Gaps) > 0 && bubbleT != nil {
 			cls["time-passes-between-frames"] = true
 		}
+		stallAt := -1
+		if c.Stall[1] > 0 && bubbleT != nil && len(ord) >= 2 {
+			stallAt = 1 + c.Stall[0]%(len(ord)-1)
+			before, after := map[int]bool{}, map[int]bool{}
+			for pos, v := range ord {
+				if pos < stallAt {
+					before[owner[v]] = true
+				} else {
+					after[owner[v]] = true
+				}
+			}
+			for o := range before {
+				if after[o] {
+					stalled[o] = true
+				}
+			}
+			cls["a-long-silence-between-two-frames"] = true
+		}
 		for pos, v := range ord {
+			if pos == stallAt {
+				time.Sleep(time.Duration(c.Stall[1]) * time.Millisecond)
+			}
 			if len(c.Gaps) > 0 && bubbleT != nil {
 				time.Sleep(time.Duration(c.Gaps[pos%len(c.Gaps)]) * time.Millisecond)
 			}
@@ -672,6 +700,10 @@ func runC10(c Case) (res evid.Result) {
 		// its prefixes, once each (dispatch policy of the link service; since the C01 repair of
 		// token-less Data dispatch this holds for non-local receivers as well)
 		multiOK := m.Kind == "D" && len(m.OutTok) != 6
+		if len(got) == 0 && stalled[i] {
+			cls["message-under-reassembly-across-a-long-silence:given-up"] = true
+			continue
+		}
 		if len(got) == 0 {
 			for k, d := range sink {
 				if !used[k] && len(d.raw) == len(msgs[i].wire) {
@@ -717,7 +749,9 @@ func runC10(c Case) (res evid.Result) {
 		}
 	}
 	entries, _, _ := recv.VerifPartialMessageStore()
-	if entries != 0 && !(dupAfterCompletion && entries == 1) {
+	// (a message given up across a long silence may leave the fragments that came after it behind,
+	// until a time-out of their own: not judged)
+	if entries != 0 && !(dupAfterCompletion && entries == 1) && !cls["message-under-reassembly-across-a-long-silence:given-up"] {
 		return fail("partial message store holds %d entries after all frames of all messages were received", entries)
 	}
 
@@ -846,6 +880,9 @@ func genCase(t *rapid.T) Case {
 	}
 	if rapid.IntRange(0, 3).Draw(t, "viaStream") == 0 {
 		c.Stream = rapid.SliceOfN(rapid.SampledFrom([]int{1, 3, 7, 50, 100, 127, 1000, 1500, 8800, -1}), 1, 4).Draw(t, "stream")
+	}
+	if len(c.Stream) == 0 && rapid.IntRange(0, 5).Draw(t, "stall") == 0 {
+		c.Stall = [2]int{rapid.IntRange(0, 200).Draw(t, "stallAt"), rapid.SampledFrom([]int{700, 1300, 3000}).Draw(t, "stallMs")}
 	}
 	if len(c.Stream) == 0 && rapid.IntRange(0, 3).Draw(t, "gaps") == 0 {
 		c.Gaps = rapid.SliceOfN(rapid.SampledFrom([]int{0, 1, 5, 20, 40, 60}), 1, 6).Draw(t, "gapMs")
